@@ -32,12 +32,12 @@ func TestMain(m *testing.M) {
 }
 
 type Case struct {
-	Proto      string `json:"proto"` // "cmpp" | "smpp"
-	Candidates []int  `json:"candidates"`
-	HasOrigin  bool   `json:"has_origin"`
-	Origin     int    `json:"origin"`
-	Ref        byte   `json:"ref"`
-	Text       string `json:"text_hex"`
+	Proto      string  `json:"proto"` // "cmpp" | "smpp"
+	Candidates []int   `json:"candidates"`
+	HasOrigin  bool    `json:"has_origin"`
+	Origin     int     `json:"origin"`
+	Ref        byte    `json:"ref"`
+	Text       string  `json:"text_hex"`
 	Shuffles   [][]int `json:"shuffles"` // permutations of candidate indexes for the repetitions
 }
 
